@@ -102,6 +102,11 @@ func judgeTreeAllSubsets(c *Ctx, tc *TreeCase, r *gen.Rand, extras int) {
 			}
 		}
 		n := 1 + r.Intn(3)
+		if e == extras-1 && tc.Index%8 == 0 {
+			// a long list (implementations may switch strategy above a size threshold): 10..90 further entries
+			n = 10 + r.Intn(80)
+			c.Inc("long_allowed_lists")
+		}
 		for j := 0; j < n; j++ {
 			switch r.Intn(4) {
 			case 0: // unrelated
@@ -195,6 +200,7 @@ func runC01(c *Ctx, phase string) {
 	c.Floor("expected_true", 1000)
 	c.Floor("expected_false", 1000)
 	c.Floor("trees_or_under_and_under_or", 1)
+	c.Floor("long_allowed_lists", 100)
 	for _, s := range []string{"left_chain", "right_chain", "balanced", "or_and_or", "andchain_x_or", "random"} {
 		c.Floor("shape_"+s, 10)
 	}
